@@ -431,11 +431,16 @@ func (s *shardingKeyRepo) OnAddOrUpdate(schemaMetadata schema.Metadata) {
 	}
 	measure := schemaMetadata.Spec.(*databasev1.Measure)
 	shardingKey := measure.GetShardingKey()
+	id := getID(measure.GetMetadata())
 	if shardingKey == nil || len(shardingKey.GetTagNames()) == 0 {
+		// The update may have removed the sharding key: forget the locator of the previous revision,
+		// otherwise writes keep being routed by a key the schema no longer declares.
+		s.RWMutex.Lock()
+		delete(s.shardingKeysMap, id)
+		s.RWMutex.Unlock()
 		return
 	}
 	l := partition.NewShardingKeyLocator(measure.TagFamilies, measure.ShardingKey)
-	id := getID(measure.GetMetadata())
 	if le := s.log.Debug(); le.Enabled() {
 		le.
 			Str("action", "add_or_update").
